@@ -1472,6 +1472,9 @@ func runExchange(sc *Scenario, res *core.Result, verbose bool) {
 			slow := []time.Duration{0, 0, 2 * time.Millisecond, 20 * time.Millisecond}[sc.RunSeed%4]
 			s.DecorateReader = (&common.Decorator{K: k}).Decorate
 			s.MsgAcceptFunc = (&common.YieldAccept{K: k, Slow: slow}).Accept
+			if sc.RunSeed%3 == 0 {
+				s.DecorateWriter = (&common.WDecorator{K: k}).Decorate
+			}
 		}
 		return s
 	}
